@@ -9,9 +9,13 @@
    relation -- the only thing later code observes, through `contains` -- is the same.
    All other hash containers in dfir_lang/src/graph are accessed by key only (source scan,
    regenerated each run and compared with corpus/C42/hash_iteration_sites.json).
-   Named _partial: oracle independence of the *whole* partition model is not stated here. *)
-From Coq Require Import List NArith.
-From HV Require Import Partition.Oracle.
+   C42_partition_model_oracle_independent lifts this to the WHOLE executable model of
+   partition_graph (Partition/Full.v, the model that C18 compares with every real output): with
+   the iteration order of enemies[v] chosen by an arbitrary oracle pi (any permutation), the
+   model's result -- the complete partitioned graph -- is the same.  The proof needs no invariant:
+   the loop body's effects commute (Partition/POracle.v). *)
+From Coq Require Import List String NArith Permutation.
+From HV Require Import Partition.Base GraphAlg.Model Partition.Model Partition.Oracle Partition.Full Partition.FullO Partition.POracle Gen.OpsTable.
 Import ListNotations.
 Open Scope N_scope.
 
@@ -29,6 +33,37 @@ Theorem C42_enemy_merge_closed_form :
     forall k x, merge_enemies order u v en k x = merged u v en k x.
 Proof. exact merge_enemies_closed_form. Qed.
 Print Assumptions C42_enemy_merge_closed_form.
+
+Theorem C42_partition_model_oracle_independent :
+  forall (pi : list N -> list N), (forall l, Permutation (pi l) l) ->
+  forall (T : optable) (g : graph), partition_model_o pi T g = partition_model T g.
+Proof. exact partition_model_oracle_independent. Qed.
+Print Assumptions C42_partition_model_oracle_independent.
+
+(* non-vacuity: reversing every iteration is an admissible oracle, and on a graph whose
+   partitioning does merge subgraphs that carry enemies (defer_tick barrier) the oracle model
+   computes the same complete graph as the plain model *)
+Definition g_oracle_example : graph :=
+  mkGraph [mkNode 1 (KOp "source_iter") None [] None None;
+           mkNode 2 (KOp "union") None [] None None;
+           mkNode 3 (KOp "tee") None [] None None;
+           mkNode 4 (KOp "for_each") None [] None None;
+           mkNode 5 (KOp "defer_tick") None [] None None;
+           mkNode 6 (KOp "map") None [] None None]
+          [mkEdge 1 1 2 PElided PElided; mkEdge 2 2 3 PElided PElided; mkEdge 3 3 4 PElided PElided;
+           mkEdge 4 6 2 PElided PElided; mkEdge 5 3 5 PElided PElided; mkEdge 6 5 6 PElided PElided]
+          [] [] [].
+Example C42_oracle_example :
+  (forall l : list N, Permutation (rev l) l) /\
+  partition_model_o (@rev N) ops_table g_oracle_example = partition_model ops_table g_oracle_example /\
+  match partition_model ops_table g_oracle_example with
+  | POk p => g_topo p = [1; 2]%N /\ List.length (g_sgs p) = 2%nat
+  | _ => False
+  end.
+Proof.
+  split; [intro l; apply Permutation_sym; apply Permutation_rev|].
+  split; [vm_compute; reflexivity|]. vm_compute. split; reflexivity.
+Qed.
 
 (* non-vacuity of the hypotheses *)
 Example C42_hyps_satisfiable :
